@@ -8,6 +8,7 @@ import (
 	"bytes"
 	"encoding/json"
 	"fmt"
+	"slices"
 	"sort"
 
 	"github.com/tikv/client-go/v2/internal/latch"
@@ -215,7 +216,7 @@ func (m *machine) logf(format string, a ...any) {
 // comparison: start ts of transactions that have not returned stale / been unlocked, the commit
 // ts of a release in progress, every node's maxCommitTS and the ghost's per-key maximum.
 func (m *machine) relevant(dump []latch.VerifSlot) []uint64 {
-	var vs []uint64
+	vs := make([]uint64, 0, 16)
 	for _, t := range m.tx {
 		switch t.st {
 		case stAcquiring, stWaiting, stWoken, stGranted:
@@ -232,7 +233,7 @@ func (m *machine) relevant(dump []latch.VerifSlot) []uint64 {
 	for _, g := range m.ghostMax {
 		vs = append(vs, g)
 	}
-	sort.Slice(vs, func(i, j int) bool { return vs[i] < vs[j] })
+	slices.Sort(vs)
 	out := vs[:0]
 	for _, v := range vs {
 		if v != 0 && (len(out) == 0 || out[len(out)-1] != v) {
@@ -356,7 +357,9 @@ func (m *machine) apply(op Op) (ok bool) {
 		}
 		t.commit = c
 		m.lastAbs = c
-		m.logf("txn%d: UnLock(commitTS=%d) [was %s]", op.T, c, statusName[t.st])
+		if m.tracing {
+			m.logf("txn%d: UnLock(commitTS=%d) [was %s]", op.T, c, statusName[t.st])
+		}
 		wasGranted := t.st == stGranted
 		if m.fine {
 			t.st = stReleasing
@@ -460,7 +463,9 @@ func (m *machine) noteWoken(woken []*latch.Lock) {
 		m.tx[id].st = stWoken
 		m.wake = append(m.wake, id)
 		m.st.wakeups++
-		m.logf("  -> wakes txn%d (stale=%v)", id, latch.VerifInfo(w).IsStale)
+		if m.tracing {
+			m.logf("  -> wakes txn%d (stale=%v)", id, latch.VerifInfo(w).IsStale)
+		}
 	}
 }
 
@@ -479,7 +484,9 @@ func (m *machine) acquireStep(id int, first bool) {
 	m.st.realOps++
 	inf := latch.VerifInfo(t.lock)
 	if r == latch.VerifSuccess && inf.AcquiredCount < len(inf.Keys) {
-		m.logf("txn%d: acquireSlot ok (%d/%d)", id, inf.AcquiredCount, len(inf.Keys))
+		if m.tracing {
+			m.logf("txn%d: acquireSlot ok (%d/%d)", id, inf.AcquiredCount, len(inf.Keys))
+		}
 		return // acquire's loop continues with the next slot at the next step
 	}
 	if !first {
@@ -499,11 +506,15 @@ func (m *machine) finishAcquire(id, r int, first bool) {
 		if !first {
 			m.st.requeue++
 		}
-		m.logf("txn%d: acquire -> locked (waits)", id)
+		if m.tracing {
+			m.logf("txn%d: acquire -> locked (waits)", id)
+		}
 	case latch.VerifSuccess:
 		t.st = stGranted
 		m.st.grant++
-		m.logf("txn%d: acquire -> success: Lock returns, not stale", id)
+		if m.tracing {
+			m.logf("txn%d: acquire -> success: Lock returns, not stale", id)
+		}
 		// exclusivity (black box): no other transaction between its grant and its unlock shares a key
 		for j, o := range m.tx {
 			if j != id && o.st == stGranted && o.mask&t.mask != 0 {
@@ -526,7 +537,9 @@ func (m *machine) finishAcquire(id, r int, first bool) {
 		} else {
 			m.st.staleWake++
 		}
-		m.logf("txn%d: acquire -> stale: Lock returns, IsStale", id)
+		if m.tracing {
+			m.logf("txn%d: acquire -> stale: Lock returns, IsStale", id)
+		}
 		if !t.lock.IsStale() {
 			m.fail("stale-flag", "txn%d: acquire returned acquireStale but Lock.IsStale() is false", id)
 		}
@@ -728,11 +741,11 @@ func (m *machine) canon() []byte {
 		order = append(order, id)
 		return label[id]
 	}
-	var b []byte
+	b := make([]byte, 0, 160)
 	b = append(b, byte(m.maxN-len(m.tx)))
 	for _, s := range dump {
 		nodes := append([]latch.VerifNode(nil), s.Nodes...)
-		sort.Slice(nodes, func(i, j int) bool { return bytes.Compare(nodes[i].Key, nodes[j].Key) < 0 })
+		slices.SortFunc(nodes, func(x, y latch.VerifNode) int { return bytes.Compare(x.Key, y.Key) })
 		b = append(b, 'N', byte(len(nodes)))
 		for _, n := range nodes {
 			b = append(b, byte(m.lay.keyIdx(n.Key)), rank(n.MaxCommitTS), see(n.Holder))
@@ -773,7 +786,7 @@ func (m *machine) canon() []byte {
 			rest = append(rest, desc(t))
 		}
 	}
-	sort.Slice(rest, func(i, j int) bool { return bytes.Compare(rest[i], rest[j]) < 0 })
+	slices.SortFunc(rest, bytes.Compare)
 	b = append(b, 'T', byte(len(order)))
 	for _, id := range order {
 		b = append(b, desc(m.tx[id])...)
